@@ -29,3 +29,11 @@ func VerifOpenDBI(name string, driver string) (DBI, error) {
 
 // VerifSeedRand reseeds the weighted-selection random source (simulation testing only).
 func VerifSeedRand(seed int64) { localRand.Seed(seed) }
+
+// VerifDBI returns the backend of d (simulation testing only).
+func VerifDBI(d *DB) DBI {
+	if d == nil {
+		return nil
+	}
+	return d.dbi
+}
